@@ -189,6 +189,10 @@ func (c *Ctx) lockAnalysis() *LockAnalysis {
 // checkGuarded evaluates the guarded-by rule for the accesses selected by
 // filter and records one obligation per (function, field, read|write).
 func (c *Ctx) checkGuarded(la *LockAnalysis, rule string, filter func(fid string, write bool, fn *ssa.Function) bool) {
+	c.checkGuardedFull(la, rule, func(a access) bool { return filter == nil || filter(a.FID, a.Write, a.Fn) })
+}
+
+func (c *Ctx) checkGuardedFull(la *LockAnalysis, rule string, filter func(a access) bool) {
 	fields, specs := c.guardedFields()
 	type agg struct {
 		ok   bool
@@ -200,7 +204,7 @@ func (c *Ctx) checkGuarded(la *LockAnalysis, rule string, filter func(fid string
 	res := map[string]*agg{}
 	var keys []string
 	for _, a := range la.accesses(fields) {
-		if filter != nil && !filter(a.FID, a.Write, a.Fn) {
+		if filter != nil && !filter(a) {
 			continue
 		}
 		fk := funcKey(topFunc(a.Fn))
